@@ -174,18 +174,25 @@ package redis
 //@   ensures @progress result == nil ==> b.err == nil && b.w - b.r > old(b.w - b.r)
 //@   ensures @error result != nil ==> b.err != nil && result == b.err
 //@   ensures @keeps-window b.w - b.r >= old(b.w - b.r)
+//@   requires b.err == nil ==> windowok(b)
+//@   modifies fetched
+//@   ensures @stream-window b.err == nil ==> windowok(b)
+//@   ensures @consumes-nothing b.err == nil ==> rpos(b) == old(rpos(b))
+//@   ensures @source-unchanged b.rd == old(b.rd)
 
 //@ func (*Reader).ReadByte
 //@   prop C10 C11
-//@   requires readerRI(b)
-//@   modifies b.r, b.w, b.err, b.buf[0:len(b.buf)]
-//@   ensures @ri readerRI(b) && b.buf == old(b.buf)
+//@   requires readerRI(b) && (b.err == nil ==> windowok(b))
+//@   modifies b.r, b.w, b.err, b.buf[0:len(b.buf)], fetched
+//@   ensures @ri readerRI(b) && b.buf == old(b.buf) && b.rd == old(b.rd) && (b.err == nil ==> windowok(b))
+//@   ensures @next-stream-byte result1 == nil ==> b.err == nil && result0 == stream[src(b)][old(rpos(b))] && rpos(b) == old(rpos(b)) + 1
 
 //@ func (*Reader).PeekByte
 //@   prop C10 C11
-//@   requires readerRI(b)
-//@   modifies b.r, b.w, b.err, b.buf[0:len(b.buf)]
-//@   ensures @ri readerRI(b) && b.buf == old(b.buf)
+//@   requires readerRI(b) && (b.err == nil ==> windowok(b))
+//@   modifies b.r, b.w, b.err, b.buf[0:len(b.buf)], fetched
+//@   ensures @ri readerRI(b) && b.buf == old(b.buf) && b.rd == old(b.rd) && (b.err == nil ==> windowok(b))
+//@   ensures @next-stream-byte-not-consumed result1 == nil ==> b.err == nil && result0 == stream[src(b)][old(rpos(b))] && rpos(b) == old(rpos(b))
 
 //@ func (*Reader).Read
 //@   prop C10 C11
